@@ -24,7 +24,7 @@ from engines.prelude import pick, reach, realize
 from harness import _C25_terms as T
 from harness import _C26_lib as L
 from pynguin.analyses.module import ModuleTestCluster
-from pynguin.analyses.typesystem import ANY, Instance
+from pynguin.analyses.typesystem import ANY, Instance, TupleType, UnionType
 
 PROPERTY = "C26"
 
@@ -45,6 +45,43 @@ def h_offer(law: int, u: int, n: int, k: int, p: int, q: int, g: int, part: int)
     t = uni.decode(1, k, p, q, n)
     gen = pick(L.generators(u), g)
     with T.untraced():  # t and gen are concrete table entries; CrossHair would bypass the lru_caches
+        prov_p, prov_r = L.providers(u)
+        in_p = gen in L.offered(prov_p, t)
+        in_r = gen in L.offered(prov_r, t)
+        if law == 0:
+            may = ts.is_maybe_subtype(gen.generated_type(), t)
+            ok = (may or not in_p) and (may or not in_r)
+        else:
+            ok = in_p == in_r
+    return reach(ok)
+
+
+def h_offer_nested(law: int, u: int, tk: int, tp: int, tq: int, x: int) -> bool:
+    """The two offer laws for the generator make_pair_union() -> tuple[int | str, B] (a tuple with a
+    union item) and requests of the shapes T and Union{T, X} / Union{X, T}: T = tuple[a] / tuple[a, b]
+    over 7 item terms (None | B, int | str, B, int, A, None, Any), X in E, str (x = 0: plain T).
+
+    pre: 0 <= law <= 1 and 0 <= u <= 1 and 0 <= tk <= 1 and 0 <= tp < 7 and 0 <= tq < 7 and 0 <= x < 5
+    post: _
+    """
+    law, u = realize(law), realize(u)  # pinned selectors
+    uni = T.universe(u)
+    ts = uni.systems[1]
+    args = uni.nested_args(1)
+    tup = TupleType((pick(args, tp),)) if tk == 0 else TupleType((pick(args, tp), pick(args, tq)))
+    e, s = uni.sub[1][9], uni.sub[1][7]
+    if x == 0:
+        t = tup
+    elif x == 1:
+        t = UnionType((tup, e))
+    elif x == 2:
+        t = UnionType((e, tup))
+    elif x == 3:
+        t = UnionType((tup, s))
+    else:
+        t = UnionType((s, tup))
+    gen = L.generators(u)[18]
+    with T.untraced():
         prov_p, prov_r = L.providers(u)
         in_p = gen in L.offered(prov_p, t)
         in_r = gen in L.offered(prov_r, t)
@@ -338,7 +375,7 @@ META = {
                   "_add_or_make_union", "pynguin.ga.operators.selection.RankSelection.get_index/RandomSelection.get_index",
                   "TypeSystem.subtype_distance/is_maybe_subtype/is_subtype/is_subclass/get_subclasses/get_superclasses/"
                   "add_subclass_edge"],
-    "bounds": {"generators": 18, "requested_types": "quick n=6 (151 terms); thorough n=16 (853 terms) on universe 0, n=8 (245) on universe 1; depth <= 2",
+    "bounds": {"generators": "18 (+1 returning tuple[int | str, B] for the *_nested obligations: 56 tuple requests and their unions with E / str)", "requested_types": "quick n=6 (151 terms); thorough n=16 (853 terms) on universe 0, n=8 (245) on universe 1; depth <= 2",
                "tape": "4 values of random() incl. 0 and 1-2**-53", "history": "6 subsets of 4 generators + <=2 (3) ops of 14",
                "ts_cache": "6 query kinds x 6x6 classes x 6x6 edges, tower on/off"},
     "outside": ["clusters from generated modules (one fixed universe; thorough: two)", "more than 18 generators / deeper terms",
@@ -361,6 +398,8 @@ def obligations(tier: str):
         return [
             Chx("sound", h_offer, timeout=T1, fix={"law": 0, "u": 0, "n": 6}, split=parts),
             Chx("same", h_offer, timeout=T1, fix={"law": 1, "u": 0, "n": 6}, split=parts),
+            Chx("sound_nested", h_offer_nested, timeout=T1, fix={"law": 0, "u": 0}),
+            Chx("same_nested", h_offer_nested, timeout=T1, fix={"law": 1, "u": 0}),
             Chx("select", h_select, timeout=T1, fix={"u": 0, "n": 6}, split={"prov": [0, 1]}),
             Chx("stale_add", h_stale_add, timeout=T1, fix={"u": 0}),
             Chx("history", h_history, timeout=T1, fix={"u": 0, "h": 2}, split={"prov": [0, 1]}),
@@ -375,6 +414,8 @@ def obligations(tier: str):
         obs.append(Chx("same", h_offer, timeout=T1, fix={"law": 1, "u": u, "n": n}, split=cells))
         obs.append(Chx("select", h_select, timeout=T1, fix={"u": u, "n": n}, split={"prov": [0, 1]}))
         obs.append(Chx("stale_add", h_stale_add, timeout=T1, fix={"u": u}))
+        obs.append(Chx("sound_nested", h_offer_nested, timeout=T1, fix={"law": 0, "u": u}))
+        obs.append(Chx("same_nested", h_offer_nested, timeout=T1, fix={"law": 1, "u": u}))
     obs.append(Chx("history", h_history, timeout=T1, fix={"u": 0, "h": 3}, split={"prov": [0, 1], "s": list(range(6))}))
     obs.append(Chx("history", h_history, timeout=T1, fix={"u": 1, "h": 2}, split={"prov": [0, 1]}))
     obs.append(Chx("ts_cache", h_ts_cache, timeout=T1, fix={"u": 0, "nc": 6}, split={"tower": [1, 0], "qk": list(range(6))}))
